@@ -108,7 +108,7 @@ def relranks_with_ep(f, L, names):
             continue
         cg = {"IN_CHECK": sym.FALSE} if "IN_CHECK" in b.j["generics"] else {}
         try:
-            ps = sym.SymExec(f, b, cgen=cg, max_paths=50000, inline=lambda n: False if n in heavy else None).run()
+            ps = sym.SymExec(f, b, cgen=cg, max_paths=50000, inline=lambda n: False if (n in heavy or (n in names and n != name)) else None).run()
         except sym.PathLimit:
             continue
         found = set()
@@ -435,7 +435,7 @@ def run(ctx):
     shred = 0
     for p in cps:
         for e in p.events:
-            if e.kind == "call" and e.depth == 0 and g.wrole.get(e.name) == "castling":
+            if e.kind == "call" and (e.depth == 0 or e.fn.startswith(cb.key + "::{closure")) and g.wrole.get(e.name) == "castling":
                 colour, wing, val = e.args[1], e.args[2], e.args[3]
                 conds = p.conds[:e.ncond]
                 sh = [c[1] for c in conds if c[0] == ("param", "shredder")]
